@@ -86,6 +86,10 @@ def main():
                     if conds:
                         lines.append(f"//@   site call {writer} nth {c['ord']} as layout-enc-{i}-{(field or 'len').replace('.', '_')}: assert {' && '.join(conds)}")
                     if not opt.get('opt'): prev = (writer, c['ord'])
+                # success means the work was done: the last mandatory field (and, through the chain of called() above, every
+                # mandatory field before it) has been written when Encode reports nil
+                if prev and not spec.get('no_success_clause'):
+                    lines.append(f"//@   ensures result == nil ==> called({prev[0]}, {prev[1]})")
                 # a writer call on a receiver field that no row accounts for
                 used = {(r[1]) for r in rows}
                 for c in calls:
@@ -130,6 +134,8 @@ def main():
                         allopt = all(match[q][2].get('opt') for q, _ in mine)
                         lines.append(f"//@   site call {c['name']} nth {c['ord']} as layout-dec-{ci}: assert {' && '.join(conds)}")
                         if not allopt: prev = (c['name'], c['ord'])
+                    if prev and not spec.get('no_success_clause'):
+                        lines.append(f"//@   ensures result == nil ==> called({prev[0]}, {prev[1]})")
             if lines:
                 out.append(f"//@ // {spec['bolt']}" if direction == 'Encode' else '//@')
                 out.append(f'//@ func ({recv} {star}{msg}) {direction}')
